@@ -600,7 +600,8 @@ pub fn judge(case: &Case, reports: &[TunnelReport], aspect: Aspect, info: &mut C
             // fault offset was never reached)
             match aspect {
                 Aspect::Fidelity => {
-                    if !c2s.starts_with(&r.origin_got) {
+                    // with an upstream proxy hop, bytes before the end of the proxy's own CONNECT head are not payload
+                    if r.origin_head_ok && !c2s.starts_with(&r.origin_got) {
                         return Err(Failure::new(format!("c2s-corrupted:fault:{}", shape), format!("tunnel {}: bytes at the origin are not a prefix of what the client sent", k)));
                     }
                     // a failure response (e.g. 503 with its body) is not tunnel payload
